@@ -215,9 +215,7 @@ def randIntVerdict (kv : List (String × String)) (impl : String) : Option Strin
   let v ← (impl.drop 5).toString.toInt?
   let f ← intArg (getS kv "f")
   let t ← intArg (getS kv "t")
-  let (lo, hi) := if t < f then (t, f) else (f, t)
-  let hi := if lo = 0 ∧ hi = 0 then 10 else hi
-  let hi := if hi = lo then wrap64 (lo + 10) else hi
+  let (lo, hi) := randIntBounds true f t
   let d := wrap64 (hi - lo)
   let off := wrap64 (v - lo)
   if 0 ≤ off ∧ off < d then some "ok" else some s!"fail:range:randInt returned {v} outside [{lo},{hi})"
